@@ -112,7 +112,7 @@ class Machine:
         self.last_failed = False
         self.log: list = []
         self.defaults = tomllib.loads(
-            (boot.REPO_PKG_DATA / 'default_config.toml').read_text())
+            (boot.REPO_PKG_DATA / 'default_config.toml').read_text(encoding='utf-8'))
         self.search = [str(hdir), str(boot.REPO_TEST_DATA), str(boot.REPO_PKG_DATA)]
 
     # -- generators ---------------------------------------------------------------
